@@ -959,3 +959,234 @@ def illformed_suite(run, scratch, seed, n, name="illformed_stream"):
                     "duplicate ticker columns handed to Backtest: the implementation must raise exactly that error, and the model must agree "
                     "state for state up to the failing operation",
             "samples": [{"class": t[2], "expected": t[1], "ops": t[0]["ops"]} for t in triples[:2]]}
+
+
+# ---------------------------------------------------------------- C11: isolation / repeatability / input immutability
+def gen_kernel_case(rng, name):
+    """flat strategies using the algos whose kernels are outside the model (random / ffn / sklearn / scipy)"""
+    import gen_backtest
+    from gen_engine import hx
+    n = rng.randint(30, 45)
+    t = 946684800 + 86400 * rng.randint(0, 8000)
+    dates = []
+    while len(dates) < n:                       # consecutive business days: every look-back window below has >= 8 rows
+        if (t // 86400 + 3) % 7 < 5:
+            dates.append(t)
+        t += 86400
+    nt = rng.randint(3, 5)
+    tickers = list(range(1, nt + 1))
+    prices = [[t, gen_backtest.gen_price_col(rng, n, p_nan=0.0)] for t in tickers]
+    sched = rng.choice([["runperiod", "weekly", False, False, False], ["runperiod", "monthly", False, False, True],
+                        ["everyn", rng.randint(3, 6), 0]])
+    st = [["runafterdate", dates[22]], sched]
+    st.append(rng.choice([["selectall", False, False], ["selectthese", rng.sample(tickers, nt - 1), False, False]]))
+    if rng.random() < 0.35:
+        st.append(["selectrandomly", rng.randint(2, nt - 1)])
+    w = rng.choice(["weigherc"] * 3 + ["weighinvvol"] * 2 + ["weighmeanvar"] * 2 + ["weighrandomly"] * 2 + ["weighequally"])
+    if w == "weighrandomly":
+        st.append(["weighrandomly", hx(0.0), hx(0.75)])
+    elif w == "weighequally":
+        st.append(["weighequally"])
+    else:
+        st.append([w, rng.choice([15, 20, 25])])
+    if rng.random() < 0.3:
+        st.append(["targetvol", hx(rng.choice([0.1, 0.2])), 20])
+    if rng.random() < 0.3:
+        st.append(["limitdeltas", hx(0.125), []])
+    st.append(["rebalance"])
+    kids = [["sec", t, "sec", False, hx(1.0), "str"] for t in tickers] if rng.random() < 0.5 else []
+    comm = rng.choice([["none"], ["flat", hx(1.5)], ["prop", hx(0.001953125)]])
+    return {"name": name, "dates": dates, "intpos": rng.random() < 0.5, "comm": comm, "prices": prices,
+            "bidoffer": None, "coupons": None, "cost_long": None, "cost_short": None, "adata": [],
+            "capital": hx(float(rng.choice([100000, 1000000]))), "tree": ["strat", nt + 2, False, kids, st],
+            "pyseed": rng.randint(0, 1000), "kernel": True}
+
+
+def perturb_prices(rng, prices):
+    from gen_engine import hx
+    out = []
+    for t, col in prices:
+        new = []
+        for r, c in enumerate(col):
+            if c == "nan" or r < 1:
+                new.append(c)
+            else:
+                v = float.fromhex(c)
+                new.append(hx(v * rng.choice([0.9375, 0.96875, 1.0, 1.03125, 1.0625, 1.125])) if v != 0 else c)
+        out.append([t, new])
+    return out
+
+
+def isolation_sessions(seed, n):
+    import random
+    import gen_backtest
+    rng = random.Random(seed * 53 + 11)
+    sessions = []
+    for i in range(n):
+        u = rng.random()
+        if u < 0.35:
+            c = gen_kernel_case(rng, "i%04d" % i)
+        elif u < 0.55:
+            c = gen_backtest.gen_fi_case(rng, "i%04d" % i)
+        else:
+            c = gen_backtest.gen_case(rng, "i%04d" % i)
+        frames = {"d0": c["prices"], "d1": perturb_prices(rng, c["prices"])}
+        base = {"intpos": c["intpos"], "comm": c["comm"], "capital": c["capital"], "pyseed": c.get("pyseed", 0)}
+        runs = {"a": dict(base, frame="d0"), "b": dict(base, frame="d1")}
+        if rng.random() < 0.6:
+            runs["c"] = dict(base, frame="d0", intpos=not c["intpos"])
+        if rng.random() < 0.4:
+            runs["d"] = dict(base, frame="d0")             # a twin of a: same inputs, must give the same result
+        s = {k: c.get(k) for k in ("dates", "adata", "bidoffer", "coupons", "cost_long", "cost_short")}
+        s.update({"name": c["name"], "template": c["tree"], "frames": frames, "runs": runs, "kernel": bool(c.get("kernel"))})
+        s["adata"] = s["adata"] or []
+        sessions.append(s)
+    return sessions
+
+
+def random_script(rng, ids):
+    """a valid interleaving: every backtest is built before it is run; one finished backtest is asked to run again"""
+    pending = {i: ["build", "run"] for i in ids}
+    script = []
+    while pending:
+        i = rng.choice(sorted(pending))
+        script.append([pending[i].pop(0), i])
+        if not pending[i]:
+            del pending[i]
+        if rng.random() < 0.25:
+            done = [x for x in ids if ["run", x] in script and ["rerun", x] not in script]
+            if done:
+                script.append(["rerun", rng.choice(done)])
+    if not any(k == "rerun" for k, _ in script):
+        script.append(["rerun", rng.choice(sorted(ids))])
+    return script
+
+
+def isolation_suite(run, scratch, seed, n, hashseeds=(1, 4242)):
+    import random
+    from concurrent.futures import ThreadPoolExecutor
+    rng = random.Random(seed * 59 + 3)
+    sessions = isolation_sessions(seed, n)
+    jobs = []          # (label, session name, hashseed, request)
+    for s in sessions:
+        ids = sorted(s["runs"])
+        for rid in ids:
+            ref = dict(s, runs={rid: s["runs"][rid]}, script=[["build", rid], ["run", rid]])
+            jobs.append(("ref:" + rid, s["name"], "0", ref))
+        for k, hs in enumerate(("0",) + tuple(str(h) for h in hashseeds)):
+            jobs.append(("sess%d" % k, s["name"], hs, dict(s, script=random_script(rng, ids))))
+
+    def work(job):
+        label, name, hs, req = job
+        try:
+            out = common.run_impl(scratch, "impl_isolation.py", json.dumps({"sessions": [req]}), hashseed=hs, timeout=900)
+            return common.parse_dump(out)
+        except Exception as e:  # noqa: BLE001
+            return {"__error__": str(e)[-600:]}
+    with ThreadPoolExecutor(max_workers=14) as ex:
+        outs = list(ex.map(work, jobs))
+    res = {}
+    for job, o in zip(jobs, outs):
+        res[(job[1], job[0])] = (job, o)
+    # model side for the templates the model covers
+    model_cases = []
+    for s in sessions:
+        if s["kernel"]:
+            continue
+        for rid, r in s["runs"].items():
+            model_cases.append({"name": "%s:%s" % (s["name"], rid), "dates": s["dates"], "intpos": r["intpos"], "comm": r["comm"],
+                                "prices": s["frames"][r["frame"]], "bidoffer": s.get("bidoffer"), "coupons": s.get("coupons"),
+                                "cost_long": s.get("cost_long"), "cost_short": s.get("cost_short"), "adata": s["adata"],
+                                "capital": r["capital"], "tree": s["template"], "pyseed": r.get("pyseed", 0)})
+    dm = {}
+    for i in range(0, len(model_cases), 100):
+        dm.update(common.parse_dump(common.run_model("\n".join(common.bt_case_to_sexp(c) for c in model_cases[i:i + 100]))))
+    stats = {"sessions": len(sessions), "processes": len(jobs), "runs_compared": 0, "model_compared": 0, "model_diff": 0,
+             "input_fingerprints": 0, "reruns": 0, "completed_refs": 0, "kernel_sessions": sum(1 for s in sessions if s["kernel"]),
+             "twin_pairs": 0, "status": {}}
+    bad = 0
+
+    def viol(s, what, detail):
+        nonlocal bad
+        bad += 1
+        if bad <= 3:
+            run.violation({"suite": "isolation_sessions", "session": s, "detail": detail}, "C11: %s (%s)" % (what, s["name"]))
+    first_model_diff = None
+    for s in sessions:
+        name = s["name"]
+        refs = {}
+        for rid in s["runs"]:
+            job, o = res[(name, "ref:" + rid)]
+            if "__error__" in o:
+                viol(s, "the harness process for a single backtest failed", o["__error__"])
+                continue
+            refs[rid] = o.get("%s:%s" % (name, rid))
+            st = refs[rid]["steps"][-1]["status"]
+            k = st[2] if len(st) > 2 and st[1] == "err" else "completed"
+            stats["status"][k] = stats["status"].get(k, 0) + 1
+            if k == "completed":
+                stats["completed_refs"] += 1
+            mc = dm.get("%s:%s" % (name, rid))
+            if mc is not None:
+                v, d = common.compare_case(refs[rid], mc)
+                stats["model_compared"] += 1
+                if v == "diff":
+                    stats["model_diff"] += 1
+                    if first_model_diff is None:
+                        first_model_diff = (s, rid, d)
+            fp = o.get("%s:inputs" % name)
+            if fp:
+                for key, toks in fp["steps"][-1]["state"].items():
+                    if key.startswith("FP "):
+                        stats["input_fingerprints"] += 1
+                        if toks[0] != "same":
+                            viol(s, "constructing / running a backtest modified its input %s" % key[3:], {"run": rid, "diff": " ".join(toks[1:])[:400]})
+        if "a" in refs and "d" in refs and refs["a"] and refs["d"]:
+            stats["twin_pairs"] += 1
+            v, d = common.compare_case(refs["a"], refs["d"])
+            if v != "equal":
+                viol(s, "two fresh processes with the same inputs and seeds give different results", {"difference": d})
+        for k in range(1 + len(hashseeds)):
+            job, o = res[(name, "sess%d" % k)]
+            if "__error__" in o:
+                viol(s, "the harness process for the session failed", o["__error__"])
+                continue
+            for rid in s["runs"]:
+                got = o.get("%s:%s" % (name, rid))
+                if got is None or refs.get(rid) is None:
+                    continue
+                stats["runs_compared"] += 1
+                v, d = common.compare_case(refs[rid], got)
+                if v != "equal":
+                    viol(s, "backtest %s of a session (hash seed %s, script %s) differs from the same backtest run alone in a fresh process"
+                         % (rid, job[2], json.dumps(job[3]["script"])), {"run": rid, "hashseed": job[2], "script": job[3]["script"], "difference": d})
+            fp = o.get("%s:inputs" % name)
+            if fp:
+                for key, toks in fp["steps"][-1]["state"].items():
+                    if key.startswith("FP "):
+                        stats["input_fingerprints"] += 1
+                        if toks[0] != "same":
+                            viol(s, "constructing / running backtests modified the shared input %s" % key[3:],
+                                 {"script": job[3]["script"], "diff": " ".join(toks[1:])[:400]})
+                    elif key.startswith("RERUN "):
+                        stats["reruns"] += 1
+                        if toks[0] != "same":
+                            viol(s, "asking finished backtest %s to run again changed it" % key[6:], {"script": job[3]["script"]})
+    if first_model_diff is not None:
+        s, rid, d = first_model_diff
+        run.violation({"suite": "isolation_sessions", "session": s, "run": rid, "difference": d,
+                       "broken": "correspondence isolation_sessions (model Algos.v backtest vs bt.Backtest)"},
+                      "correspondence isolation_sessions: implementation and model disagree on %d runs; first: %s:%s %s"
+                      % (stats["model_diff"], s["name"], rid, json.dumps(d)[:300]))
+    stats.update({"evaluations": stats["runs_compared"] + stats["model_compared"], "distinct_nontrivial": stats["completed_refs"],
+                  "traces_validated_against_impl": stats["model_compared"] - stats["model_diff"], "oracle_failures": bad,
+                  "rule": "sessions: one strategy template (general / fixed-income generator incl. stateful algos, or a flat strategy with "
+                          "SelectRandomly / WeighRandomly / WeighERC / WeighInvVol / WeighMeanVar / TargetVol) and shared frame objects; 2-4 "
+                          "backtests per session on the original data, on perturbed data with the same tickers and dates, with flipped "
+                          "position mode, and a twin with identical inputs; random valid build/run interleavings incl. run-again; each "
+                          "session executed in three processes (PYTHONHASHSEED 0 and two others, different scripts) and each backtest "
+                          "alone in a fresh process: all dumps (every history row, per-run temp traces) must be bit-identical to the "
+                          "fresh-process run, which is compared with the model where the model covers the template; deep fingerprints of "
+                          "template, frames and additional data before/after must be unchanged; random seeds are fixed before each run",
+                  "samples": [{"name": s["name"], "template": s["template"], "runs": s["runs"]} for s in sessions[:2]]})
+    return stats
